@@ -239,6 +239,8 @@ class Gen:
     def passive_types(self):
         if self.flavour == 'dc':
             return ['R', 'R', 'R', 'Y', 'Z']
+        if self.flavour == 'ivp':
+            return ['R', 'L', 'C', 'L', 'C', 'L', 'C', 'Y', 'Z']      # initial conditions live on L and C
         return ['R', 'R', 'L', 'C', 'L', 'C', 'Y', 'Z']
 
     def group_ics(self, ty, k):
